@@ -667,3 +667,46 @@ class sanity_check(Contract):
             return {}
         # any other exception can only come out of the cycle check
         return {'other_errors_only_from_the_cycle_check': v is not None and st is not None}
+
+
+# ----------------------------------------------------------------------------- validate_user_fns / root_of_trust (C13, C14)
+class FnSet:
+    """_model_fns: the user functions the model refers to; issubset() against the defined ones is a ghost boolean"""
+
+    def __init__(self, run):
+        self.all_defined = run.input_bool('every_model_function_is_defined')
+        self.asked = []
+
+    def getattr_(self, it, name, node):
+        if name == 'issubset':
+            def f(it_, other):
+                self.asked.append(other)
+                return self.all_defined
+            return _M(f)
+        raise Unsupported(f'set.{name}')
+
+
+class FnDict:
+    def getattr_(self, it, name, node):
+        if name == 'keys':
+            return _M(lambda it_: ('keys-of', self))
+        raise Unsupported(f'dict.{name}')
+
+
+@contract
+class validate_user_fns(Contract):
+    fn = ck.Checker.validate_user_fns
+    props = ('C13', 'C14')
+    doc = ('validate_user_fns: True iff every user function the model refers to (collected by the loader) is among the keys of the '
+           'user functions given to this checker')
+    raises = {}
+
+    def setup(self, cx):
+        fs, fd = FnSet(cx.run), FnDict()
+        cx.run.ghost['vuf'] = (fs, fd)
+        return dict(self=SymObj(ck.Checker, dict(_model_fns=fs, user_fns=fd)))
+
+    def post(c, cx, result, self):
+        fs, fd = cx.run.ghost['vuf']
+        return {'asks_whether_model_functions_are_a_subset_of_the_given_ones': fs.asked == [('keys-of', fd)],
+                'answer_is_that_subset_test': result is fs.all_defined}
